@@ -15,6 +15,11 @@ A ``Baton`` belongs to ONE propagate call.  It
   ``waitid(WNOWAIT)``, which does not reap the child, so the engine's own
   poll()/wait() bookkeeping is not disturbed;
 * a wall-clock watchdog only ever produces ``BatonWatchdog`` = inconclusive.
+
+``ReaderTap`` observes (and, on request, preempts) the engines' on-the-fly
+text readers: it records how many frames each poll returned and can let the
+writer perform its next step right after the reader consumed a line that has
+no newline yet (the file grows while it is being read).
 """
 import os
 import select
@@ -53,7 +58,7 @@ def pid_alive(pid):
         return False  # already reaped by the engine
 
 
-def group_survivors(pgids, settle=0.5):
+def group_survivors(pgids, settle=5.0):
     """Live (non-zombie) processes whose process group is one of pgids.
     A process that has just been signalled may need a moment to disappear:
     re-scan for at most `settle` seconds (a process that was never signalled
@@ -78,9 +83,58 @@ def group_survivors(pgids, settle=0.5):
         time.sleep(0.01)
 
 
+class _GrowingFile:
+    """File proxy used by ReaderTap: right after the reader consumed a line
+    that has no newline yet, the writer performs its next step - the
+    interleaving 'the file grows while it is being read', made deterministic."""
+
+    def __init__(self, fh, tap):
+        self._fh, self._tap = fh, tap
+
+    def readline(self, *a):
+        line = self._fh.readline(*a)
+        if line and not line.endswith("\n") and self._tap.grow > 0:
+            self._tap.grow -= 1
+            self._tap.grown += 1
+            self._tap.baton.tick()
+        return line
+
+    def __getattr__(self, name):
+        return getattr(self._fh, name)
+
+
+class ReaderTap:
+    """Observes how many frames each poll of the on-the-fly reader returned;
+    with grow > 0 (baton mode) also lets the file grow during a read."""
+
+    def __init__(self, baton=None, grow=0):
+        from infretis.classes.engines import engineparts as ep
+        self.ep, self.calls = ep, []
+        self.baton, self.grow, self.grown = baton, grow, 0
+        self.orig = ep.ReadAndProcessOnTheFly.read_and_process_content
+        tap = self
+
+        def wrapped(rd):
+            if tap.grow > 0 and not getattr(rd, "_vf_grow", False):
+                fn = rd.processing_function
+
+                def pf(reader, _fn=fn):
+                    reader.file_object = _GrowingFile(reader.file_object, tap)
+                    return _fn(reader)
+                rd.processing_function, rd._vf_grow = pf, True
+            res = tap.orig(rd)
+            nfr = len(res[0]) if isinstance(res, tuple) else len(res)
+            tap.calls.append((os.path.basename(str(rd.file_path)), nfr))
+            return res
+        ep.ReadAndProcessOnTheFly.read_and_process_content = wrapped
+
+    def close(self):
+        self.ep.ReadAndProcessOnTheFly.read_and_process_content = self.orig
+
+
 class Baton:
     def __init__(self, run_dir, mode="baton", K=20, free_sleep=0.0004,
-                 max_polls=20000, wall=90.0):
+                 max_polls=200000, wall=240.0):
         self.run_dir, self.mode, self.K = run_dir, mode, K
         self.free_sleep, self.max_polls, self.wall = free_sleep, max_polls, wall
         os.makedirs(run_dir, exist_ok=True)
